@@ -34,6 +34,8 @@ var c06Openers = map[string]int{
 }
 
 func runC06(c *Ctx) {
+	c.subDirectoriesAreListedInOneOrder()
+	c.notExistMeansAbsent("Z32")
 	c.rule("Z1", "every file handle obtained inside package filesystem is closed on every path to an exit, or handed to the caller", 15)
 	c.rule("Z2", "copy: mutating filesystem methods are invoked on the destination filesystem only; the source handle is only read", 3)
 	c.rule("Z3", "move: the source is removed only after the copy/rename it depends on succeeded", 3)
